@@ -519,7 +519,7 @@ def check_transpose(out, before, where):
 
 
 def run(ctx):
-    drive(ctx, scripts(), lambda c: exec_script(ctx, c), ctx.n(300, 3000), salt=1, label="C14")
+    drive(ctx, scripts(), lambda c: exec_script(ctx, c), ctx.n(600, 4000), salt=1, label="C14")
 
 
 def replay(ctx, case):
